@@ -50,6 +50,7 @@ type FuncContract struct {
 	Requires   []Clause
 	Ensures    []Clause
 	Assigns    []CExpr
+	FrameAssumed bool // the assigns clause is assumed, not checked in the body
 	HasAssigns bool
 	Pure       bool
 	Inline     bool
@@ -395,6 +396,11 @@ func (cs *ContractSet) addClause(c *FuncContract, text, where string) error {
 		}
 		cl.AssumedOnly = true
 		c.Ensures = append(c.Ensures, cl)
+	case "assumesassigns":
+		// a write frame that callers may rely on but that is NOT verified against the body
+		// (like a trusted function's frame, for a function whose other obligations are verified)
+		c.FrameAssumed = true
+		fallthrough
 	case "assigns":
 		c.HasAssigns = true
 		if rest == "" || rest == "nothing" {
